@@ -52,6 +52,12 @@
 (*             written); iaamd = "includes-action-and-meta-data":           *)
 (*             "abs" | "true" | "false",                                    *)
 (*           indices, streams: Seq(Str),                                    *)
+(*           ibody: Val  "index.number_of_shards" in the BODY FILE of the   *)
+(*           first index (NoVal: the index has no body file),               *)
+(*           tkind: "" | "composable" | "component" | "templates", tbody:   *)
+(*           Val  a template of that section whose FILE sets                *)
+(*           number_of_replicas; parameters in these files are registered   *)
+(*           only while the track object is built,                          *)
 (*           supN: {[p: Str, v: Int]}, supS: {[p: Str, v: Str]}  supplied   *)
 (*           track parameters (--track-params),                             *)
 (*           refs: SUBSET Reserved  names of Rally's own template variables *)
@@ -85,6 +91,7 @@ CONSTANTS
     Alpha,            \* record: field name -> set of literal values
     ParamSites,       \* fields that may be written as {{ p | default(v) }}
     XUses, XParams, XVals,   \* macro uses for inline operations, macro parameters and the values supplied for them
+    TplKinds,         \* template sections the builder may add
     NumParams, StrParams, SupVals, ReservedCand, Units, TagSeqs, PartKinds, DefectKinds,
     MaxOps, MaxChals, MaxEls, MaxParTasks, MaxCorpora, MaxDocs, MaxSup,
     MaxSize,          \* bound on the number of builder steps (things written beyond the seed)
@@ -149,23 +156,27 @@ Resolve(F) == [form |-> F.form,
                                            [base |-> F.corpora[k].docs[d].base, ext |-> F.corpora[k].docs[d].ext,
                                             count |-> ResN(F, F.corpora[k].docs[d].count), tidx |-> F.corpora[k].docs[d].tidx,
                                             tds |-> F.corpora[k].docs[d].tds, iaamd |-> F.corpora[k].docs[d].iaamd]]]],
-               indices |-> F.indices, streams |-> F.streams, defect |-> F.defect]
+               indices |-> F.indices, streams |-> F.streams, defect |-> F.defect,
+               ibody |-> IF Len(F.indices) >= 1 THEN ResN(F, F.ibody) ELSE Abs,
+               tkind |-> F.tkind, tbody |-> IF F.tkind = "" THEN Abs ELSE ResN(F, F.tbody)]
 
 (* Track parameters referenced anywhere in the file, included parts too.   *)
+\* parameters referenced in the index body file / the template file (never part of an included part)
+SideParams(F) == (IF Len(F.indices) >= 1 THEN {F.ibody.p} ELSE {}) \cup (IF F.tkind # "" THEN {F.tbody.p} ELSE {})
 TaskParams(t) == {t[k].p : k \in TaskNumFields} \cup {t.name.p, t.xp.p}
 ElParams(el) == {el[k].p : k \in ElNumFields} \cup UNION {TaskParams(el.tasks[i]) : i \in 1..Len(el.tasks)}
 ChalParams(ch) == UNION {ElParams(ch.sched[e]) : e \in 1..Len(ch.sched)}
 Used(F) == (UNION {ChalParams(F.chals[c]) : c \in 1..Len(F.chals)}
             \cup {F.ops[i].bulk.p : i \in 1..Len(F.ops)} \cup {F.ops[i].xp.p : i \in 1..Len(F.ops)}
             \cup UNION {{F.corpora[k].docs[d].count.p : d \in 1..Len(F.corpora[k].docs)} : k \in 1..Len(F.corpora)}
-            \cup F.refs) \ {""}
+            \cup SideParams(F) \cup F.refs) \ {""}
 \* ... and those outside of included parts
 UsedOutsideParts(F) ==
     ((IF "chals" \in F.parts THEN {} ELSE UNION {ChalParams(F.chals[c]) : c \in 1..Len(F.chals)})
      \cup (IF "ops" \in F.parts THEN {} ELSE {F.ops[i].bulk.p : i \in 1..Len(F.ops)} \cup {F.ops[i].xp.p : i \in 1..Len(F.ops)})
      \cup (IF "corpora" \in F.parts THEN {}
            ELSE UNION {{F.corpora[k].docs[d].count.p : d \in 1..Len(F.corpora[k].docs)} : k \in 1..Len(F.corpora)})
-     \cup F.refs) \ {""}
+     \cup SideParams(F) \cup F.refs) \ {""}
 Supplied(F) == {s.p : s \in F.supN} \cup {s.p : s \in F.supS}
 
 -----------------------------------------------------------------------------
@@ -215,6 +226,7 @@ OutOfRange(R) ==
     \/ \E i \in 1..Len(R.ops) : R.ops[i].bulk = 0
 NotUnique(R) ==   \* uniqueItems of the schema: identical array items
     \/ \E i, j \in 1..Len(R.indices) : i # j /\ R.indices[i] = R.indices[j]
+                                       /\ (R.ibody = Abs \/ (i # 1 /\ j # 1))   \* the body file makes the first index object different
     \/ \E i, j \in 1..Len(R.streams) : i # j /\ R.streams[i] = R.streams[j]
     \/ \E k \in 1..Len(R.corpora) : \E i, j \in 1..Len(R.corpora[k].docs) : i # j /\ R.corpora[k].docs[i] = R.corpora[k].docs[j]
 
@@ -302,7 +314,9 @@ CoreR(R, asCode) == [chals |-> [c \in 1..Len(R.chals) |-> ExpChal(R, c)],
                                     [name |-> R.corpora[k].name,
                                      docs |-> [d \in 1..Len(R.corpora[k].docs) |->
                                                  ExpDoc(R, R.corpora[k], R.corpora[k].docs[d], asCode)]]],
-                     indices |-> R.indices, streams |-> R.streams]
+                     indices |-> R.indices, streams |-> R.streams,
+                     \* what the index body file / the template file say after parameter substitution
+                     ishards |-> R.ibody, tkind |-> R.tkind, treplicas |-> R.tbody]
 ExpectedR(R) == CoreR(R, FALSE)
 Expected(F) == ExpectedR(Resolve(F))
 
@@ -425,7 +439,7 @@ ParEl(t) == [PlainEl(t) EXCEPT !.par = TRUE]
 EmptyFile(form, cname, ref) ==
     [form |-> form, chals |-> <<[name |-> cname, dflt |-> "abs", sched |-> <<PlainEl(BareTask(ref))>>]>>,
      ops |-> <<>>, corpora |-> <<>>, indices |-> <<>>, streams |-> <<>>, supN |-> {}, supS |-> {}, parts |-> {},
-     refs |-> {}, tight |-> FALSE, defect |-> NoDefect]
+     refs |-> {}, tight |-> FALSE, defect |-> NoDefect, ibody |-> NoVal, tkind |-> "", tbody |-> NoVal]
 
 Vals(field) == {L(n) : n \in Alpha[field]}
                \cup (IF field \in ParamSites THEN {P(q, n) : q \in NumParams, n \in Alpha[field] \ {0}} ELSE {})
@@ -455,7 +469,7 @@ SumDocs(ks, n) == IF n = 0 THEN 0
 \* number of builder steps that lead to F = number of things written beyond the minimal file
 Size(F) == SetCount(F) + (SumChTasks(F.chals, Len(F.chals)) - 1) + Len(F.ops) + SumDocs(F.corpora, Len(F.corpora))
            + Len(F.indices) + Len(F.streams) + Cardinality(F.supN) + Cardinality(F.supS) + Cardinality(F.parts)
-           + Cardinality(F.refs)
+           + Cardinality(F.refs) + (IF F.ibody # NoVal THEN 1 ELSE 0) + (IF F.tkind # "" THEN 1 ELSE 0)
            + (IF F.defect = NoDefect THEN 0 ELSE 1)
 
 ChalIdx == 1..Len(f.chals)
@@ -516,6 +530,10 @@ CandSetCorpusField ==
                              THEN {[f EXCEPT !.corpora[k].docs[d].iaamd = b] : b \in {"true", "false"}} ELSE {})
                        : d \in 1..Len(f.corpora[k].docs)}
            : k \in 1..Len(f.corpora)}
+\* a body file for the first index / a template section with a template file
+CandSetSideFile ==
+    (IF Len(f.indices) >= 1 /\ f.ibody = NoVal THEN {[f EXCEPT !.ibody = x] : x \in Vals("ibody")} ELSE {})
+    \cup (IF f.tkind = "" THEN {[f EXCEPT !.tkind = k, !.tbody = x] : k \in TplKinds, x \in Vals("tbody")} ELSE {})
 CandAddIndex == IF Len(f.indices) < 2 THEN {[f EXCEPT !.indices = Append(@, n)] : n \in INames} ELSE {}
 CandAddStream == IF Len(f.streams) < 2 THEN {[f EXCEPT !.streams = Append(@, n)] : n \in SNames} ELSE {}
 CandSupplyParam ==
@@ -578,6 +596,7 @@ SetParallelField == \E F2 \in CandSetParallelField : Take(F2)
 AddCorpus == \E F2 \in CandAddCorpus : Take(F2)
 AddDocs == \E F2 \in CandAddDocs : Take(F2)
 SetCorpusField == \E F2 \in CandSetCorpusField : Take(F2)
+SetSideFile == \E F2 \in CandSetSideFile : Take(F2)
 AddIndex == \E F2 \in CandAddIndex : Take(F2)
 AddStream == \E F2 \in CandAddStream : Take(F2)
 SupplyParam == \E F2 \in CandSupplyParam : Take(F2)
@@ -589,7 +608,7 @@ Init == /\ f \in Seeds
         /\ violated = "none"
         /\ lim = Size(f) + MaxSize
 Next == \/ AddOperation \/ AddChallenge \/ SetDefault \/ AddTask \/ AddParallel \/ AddParallelTask
-        \/ SetTaskField \/ SetParallelField \/ AddCorpus \/ AddDocs \/ SetCorpusField \/ AddIndex \/ AddStream
+        \/ SetTaskField \/ SetParallelField \/ AddCorpus \/ AddDocs \/ SetCorpusField \/ SetSideFile \/ AddIndex \/ AddStream
         \/ SupplyParam \/ UseReserved \/ SplitIntoPart \/ BreakSchema
 Spec == Init /\ [][Next]_vars
 =============================================================================
